@@ -380,7 +380,67 @@ func (w *world) reference(c Case, n int, further *types.Block) uint64 {
 	return id
 }
 
-func (w *world) run(c Case, res *vf.Result, hits *[]interface{}) []stepRes {
+type dmgRes struct {
+	Roots []uint64
+	Ok    bool
+	Head  uint64
+	Cons  bool
+}
+
+// damage: restart on copies of the final database that lost the state root of the
+// head (and of its parent): not a crash point of this code - every state is
+// committed before the head moves - but the only way to reach loadLastState's repair
+func (w *world) damage(db *logDB, head *types.Block, c Case, res *vf.Result, hits *[]interface{}) []dmgRes {
+	var out []dmgRes
+	sets := [][]common.Hash{{head.Root()}}
+	if p := w.byID[w.blockID[head.ParentHash()]]; p != nil {
+		sets = append(sets, []common.Hash{head.Root(), p.Root()})
+	}
+	for _, roots := range sets {
+		m := db.dump()
+		d := dmgRes{}
+		for _, r := range roots {
+			delete(m, string(r[:]))
+			d.Roots = append(d.Roots, w.rootID[r])
+		}
+		cdb := restore(m)
+		cbc, err := newChainOn(w, cdb)
+		genesisLost := false
+		for _, r := range roots {
+			if r == w.genesis.Root() {
+				genesisLost = true
+			}
+		}
+		if err != nil {
+			res.Count("damaged state: restart fails")
+			if !genesisLost {
+				*hits = append(*hits, hitT{What: "damaged-state: restart failed although the genesis state is there", Case: c, Note: err.Error()})
+			}
+		} else {
+			d.Ok = true
+			d.Head = w.blockID[cbc.CurrentBlock().Hash()]
+			bad := w.judge(cbc, cdb)
+			d.Cons = len(bad) == 0
+			if d.Head != w.blockID[head.Hash()] {
+				res.Count("damaged state: repair rewinds the head")
+			} else {
+				res.Count("damaged state: head keeps its state (shared root)")
+			}
+			for _, b := range bad {
+				// the lookups of the blocks above the rewound head are still there: expected
+				// for a damaged database, only the chain clauses are judged here
+				if b != "lookup-into-noncanonical" {
+					*hits = append(*hits, hitT{What: "damaged-state: " + b, Case: c})
+				}
+			}
+			cbc.Stop()
+		}
+		out = append(out, d)
+	}
+	return out
+}
+
+func (w *world) run(c Case, res *vf.Result, hits *[]interface{}) ([]stepRes, []dmgRes) {
 	db := newLogDB()
 	gspec().MustCommit(db)
 	bc, err := newChainOn(w, db)
@@ -490,7 +550,7 @@ func (w *world) run(c Case, res *vf.Result, hits *[]interface{}) []stepRes {
 			panicked = true
 			addHit("panic during import", j, 0, sr.Panic)
 			out = append(out, sr)
-			return out
+			return out, nil
 		}
 		sr.Bad = w.judge(bc, db)
 		sr.Cons = len(sr.Bad) == 0
@@ -565,7 +625,7 @@ func (w *world) run(c Case, res *vf.Result, hits *[]interface{}) []stepRes {
 		}
 		out = append(out, sr)
 	}
-	return out
+	return out, w.damage(db, bc.CurrentBlock(), c, res, hits)
 }
 
 // ---- Coq output ---------------------------------------------------------------------
@@ -624,12 +684,16 @@ func stepCoq(s stepRes) string {
 	return fmt.Sprintf("mkStep %s %d [%s] %s %s %d %d\n     [%s]", nlist(s.Batch), s.Err, strings.Join(ws, ";"), obsCoq(s.Obs), vf.Bool(s.Cons), s.Further, s.FHead, strings.Join(cs, ";\n      "))
 }
 
-func caseCoq(w *world, steps []stepRes) string {
+func caseCoq(w *world, steps []stepRes, dmg []dmgRes) string {
 	var ss []string
 	for _, s := range steps {
 		ss = append(ss, stepCoq(s))
 	}
-	return "mkCase\n  " + w.treeCoq() + "\n  [" + strings.Join(ss, ";\n   ") + "]"
+	var ds []string
+	for _, d := range dmg {
+		ds = append(ds, fmt.Sprintf("mkDmg %s %s %d %s", nlist(d.Roots), vf.Bool(d.Ok), d.Head, vf.Bool(d.Cons)))
+	}
+	return "mkCase\n  " + w.treeCoq() + "\n  [" + strings.Join(ss, ";\n   ") + "]\n  [" + strings.Join(ds, "; ") + "]"
 }
 
 // ---- corpus / gen / replay -------------------------------------------------------------
@@ -661,11 +725,11 @@ func gen(seed uint64, n int, outDir, corpusDir string) {
 	ncases := 0
 	emit := func(c Case) {
 		w := newWorld(c.Tree)
-		steps := w.run(c, res, &res.OracleHits)
+		steps, dmg := w.run(c, res, &res.OracleHits)
 		if ncases > 0 {
 			sb.WriteString(";\n")
 		}
-		sb.WriteString(caseCoq(w, steps))
+		sb.WriteString(caseCoq(w, steps, dmg))
 		key, _ := json.Marshal(c)
 		nontrivial := false
 		for _, s := range steps {
@@ -718,7 +782,7 @@ func replay(file string) {
 	}
 	res := vf.NewResult("C11", 0)
 	w := newWorld(c.Tree)
-	steps := w.run(c, res, &res.OracleHits)
+	steps, _ := w.run(c, res, &res.OracleHits)
 	for j, s := range steps {
 		fmt.Printf("batch %d %v: %s, head %d, %d writes, %d crash points, consistent=%v %v\n", j, s.Batch, errNames[s.Err], s.Obs.Head, len(s.Log), len(s.Crash), s.Cons, s.Bad)
 	}
